@@ -22,21 +22,9 @@ def gen_case(rng):
                 'flags': {'skip_brute': True, 'all_lower': rng.random() < 0.3, 'folder': 'Grammar'}}
     labels = rng.sample(['A1', 'A2', 'A3', 'A4', 'A5'], rng.randint(1, 3)) + rng.sample(['D1', 'D2', 'O1', 'O2', 'K4', 'Y1', 'X1'], rng.randint(0, 3))
     spec = rulesets.gen_spec(rng, labels=labels, max_groups=rng.choice([1, 2, 3]), max_per_group=4, with_m=rng.random() < 0.35,
-                             pool=rng.choice(['counts', 'dyadic', 'equal', 'decimal']))
+                             pool=rng.choice(['counts', 'dyadic', 'equal', 'decimal', 'nearties']))
     if rng.random() < 0.35:
-        # letters whose upper() is longer than one character (sharp s, n-apostrophe, ligatures, Greek with dialytika ...) or not reversible:
-        # a mask must still be applied position by position to the stored word
-        odd = {1: ['ß', 'ŉ', 'ǰ', 'ﬁ', 'ΐ', 'ı', 'ſ'], 2: ['ßa', 'aß', 'ŉo', 'ﬂy'], 3: ['fuß', 'ßen', 'aŉb', 'ǰaz', 'ﬁre'], 4: ['weiß', 'fußb', 'ßßßß', 'oﬃc'],
-               5: ['straß', 'groß1'[:4] + 'e', 'ﬁﬂﬀa'[:4] + 'b', 'maßes']}
-        for lab, rows in list(spec['terms'].items()):
-            if lab[0] == 'A' and int(lab[1:]) in odd:
-                n = int(lab[1:])
-                words = [w for w in odd[n] if len(w) == n and w not in {v for v, _ in rows}]
-                rng.shuffle(words)
-                for w in words[:rng.randint(1, 3)]:
-                    gi = rng.randrange(len(rows))
-                    rows.insert(gi + 1, [w, rows[gi][1]])          # joins an existing probability group
-                run_marker = True
+        rulesets.add_odd_alpha(rng, spec)
     if spec['omen'] and rng.random() < 0.3 and len(spec['omen']['probs']) >= 2:
         # two OMEN levels carrying the same probability (used to be merged into one pre-terminal that generated only the first)
         spec['omen']['probs'][1][1] = spec['omen']['probs'][0][1]
